@@ -315,6 +315,21 @@ fn check_loop(r: &Report, case: &loopdrv::LoopCase, index: u64) {
             return;
         }
     }
+    // allocation figures of a sample are those of its own timed section: a stored
+    // tally that the section did not produce (e.g. left over from a discarded
+    // tuning round) would be attributed to this sample by the statistics
+    for (i, sec) in used.iter().enumerate() {
+        let own = reference_tally(sec.timed_ops());
+        let own = if own.tallies.iter().all(|x| *x == (0, 0)) { None } else { Some(own) };
+        if rep.tallies[i] != own {
+            r.violation(Violation {
+                sig: json!({"check":"loop","class":"sample-tally","tuned": tuned, "stale": own.is_none()}),
+                text: format!("{}: recorded sample {i} is stored with allocation tally {:?} but its own timed section performed {:?}; the statistics would attribute the former to it", case.describe(), rep.tallies[i], own),
+                case: case_json(),
+            });
+            return;
+        }
+    }
     // per-input counter values dictated by the inputs of each sample
     let mut counters: [Option<Result<Vec<u64>, u64>>; 4] = [None, None, None, None];
     for kind in [0usize, 3] {
@@ -410,6 +425,9 @@ fn loop_cases(thorough: bool) -> Vec<loopdrv::LoopCase> {
                                 c.overhead_ps = [overhead, overhead * 2, overhead, overhead * 3];
                                 c.alloc[SITE_CALL] = alloc;
                                 c.alloc[SITE_GEN] = if alloc == 0 { 0 } else { 1 };
+                                // lazily initialised state: allocations only in the first rounds
+                                // (with a tuned size these are the discarded ones)
+                                c.alloc_until_round = if alloc == 5 { Some(2) } else { None };
                                 c.horizon = 2000;
                                 match counters {
                                     0 => {}
